@@ -394,7 +394,7 @@ def run_case(ctx, binp, fx, pre, group, tag, kill_sample=0, rng=None, big=False)
         subprocess.run(["strace", "-f", "-o", "/dev/null", "-e", "inject=%s:signal=SIGKILL:when=%d" % (KILL_SET, k),
                         binp, "op", kd, opf], capture_output=True, text=True, timeout=300, env=vlib.goenv())
         st = proj_state(binp, kd)
-        c.kills.append((k, any(strip_temp(st) == strip_temp(x) for x in c.states), st != c.base_state and strip_temp(st) != strip_temp(c.states[-1])))
+        c.kills.append((k, any(norm_temp(st) == norm_temp(x) for x in c.states), st != c.base_state and norm_temp(st) != norm_temp(c.states[-1])))
         shutil.rmtree(kd, ignore_errors=True)
     return c
 
@@ -406,7 +406,7 @@ def recover_and_redo(ctx, binp, c, i, mode="prune"):
     copy_tree(sn, rd)
     rc, out = serve(binp, rd, noprune=(mode == "noprune"))
     rst = proj_state(binp, rd)
-    obs = run_ops_on(ctx, binp, rd, c.group, noapi=False)
+    obs = run_ops_on(ctx, binp, rd, c.group, noapi=getattr(c, "big", False))   # (showing a 100 MB license layer 24 times in parallel is too much)
     shutil.rmtree(rd, ignore_errors=True)
     return {"rc": rc, "out": out, "state": rst, "mode": mode}, obs
 
@@ -429,6 +429,16 @@ def part_record_state(st):
         if d not in partial or sum(r.get("part_size", 0) for r in rs_) != partial[d]:
             return "inconsistent"
     return "consistent"
+
+
+def norm_temp(st):
+    """manifests and blobs, with the random names of NewLayer's temp files made anonymous (they differ from run to run)"""
+    blobs = []
+    for b in st["blobs"]:
+        if re.match(r"^sha256-\d+$", b["name"]):
+            b = dict(b, name="sha256-<temp>")
+        blobs.append(b)
+    return {"manifests": st["manifests"], "blobs": sorted(blobs, key=lambda b: (b["name"], b["size"]))}
 
 
 def strip_temp(st):
